@@ -228,6 +228,13 @@ func c15Expand(r *Run) {
 				}
 			default:
 				op = OperationJ{Op: "select", Table: "T", Where: []WCondJ{{Col: c.Name, Fn: "==", Val: c15GenValue(r, c, names)}}}
+				if rng.Intn(2) == 0 {
+					// a wait: names in its conditions and in the rows it expects
+					zero := 0
+					op = OperationJ{Op: "wait", Table: "T", Timeout: &zero, Until: []string{"==", "!="}[rng.Intn(2)], Columns: []string{c.Name},
+						Where: []WCondJ{{Col: "_uuid", Fn: "==", Val: VA(AU(names[rng.Intn(len(names))]))}},
+						Rows:  []Row{{c.Name: c15GenValue(r, c, names)}}}
+				}
 			}
 			// before or after the defining inserts
 			pos := rng.Intn(len(ops) + 1)
@@ -248,6 +255,11 @@ func c15Expand(r *Run) {
 			}
 			for _, m := range o.Mutations {
 				check(m.Col, m.Val)
+			}
+			for _, row := range o.Rows {
+				for c, v := range row {
+					check(c, v)
+				}
 			}
 		}
 		key := ""
@@ -314,6 +326,13 @@ func c15Expand(r *Run) {
 				for _, m := range o.Mutations {
 					w.Mutations = append(w.Mutations, MutationJ{Col: m.Col, Mutator: m.Mutator, Val: c15ExpandExpected(t, m.Col, m.Val, declared)})
 				}
+				for _, row := range o.Rows {
+					wr := Row{}
+					for c, v := range row {
+						wr[c] = c15ExpandExpected(t, c, v, declared)
+					}
+					w.Rows = append(w.Rows, wr)
+				}
 				want = append(want, w)
 			}
 			if a, b := opsCanonC15(implOps), opsCanonC15(want); a != b {
@@ -328,6 +347,7 @@ func c15Expand(r *Run) {
 				Op, Table, UUID string
 				UUIDName        string  `json:"uuid-name"`
 				Row             Row     `json:"row"`
+				Rows            []Row   `json:"rows"`
 				Where           []Value `json:"where"`
 				Mutations       []Value `json:"mutations"`
 			} `json:"ops"`
@@ -347,7 +367,7 @@ func c15Expand(r *Run) {
 		if implErr == "" {
 			var mops []OperationJ
 			for k, o := range mres.Ops {
-				mo := OperationJ{Op: o.Op, Table: o.Table, UUID: o.UUID, UUIDName: o.UUIDName, Row: o.Row}
+				mo := OperationJ{Op: o.Op, Table: o.Table, UUID: o.UUID, UUIDName: o.UUIDName, Row: o.Row, Rows: o.Rows}
 				for wi := range o.Where {
 					v := o.Where[wi]
 					mo.Where = append(mo.Where, WCondJ{Col: ops[k].Where[wi].Col, Fn: ops[k].Where[wi].Fn, Val: &v})
